@@ -1,11 +1,28 @@
-from lib.core import Kani, Fn
+import os
+from lib.core import Kani, Verus, Fn, VERUS_DIR
+from lib import vx
+from verus import c18_get_sync_commands as gsc
+
+
+def build_gsc():
+    text, located, dropped, raws = gsc.build()
+    d = os.path.join(VERUS_DIR, 'c18_get_sync_commands')
+    os.makedirs(d, exist_ok=True)
+    vx.write_diff(raws, os.path.join(d, 'repo_vs_verified.diff'))
+    return text, located, dropped
+
+
+GSC_UNIT = Verus('c18_get_sync_commands', build_gsc, min_verified=15,
+                 contract='SyncRequester::get_sync_commands extracted, ANY number of commands and any payload: no panic; every policy / data slice lies inside the received bytes at the cumulative offsets of the metas '
+                          '(policy first, then data, per command, in order); lengths that do not fit => MalformedResponse; another session => SessionMismatch with the requester unchanged; a SyncResponse is accepted only in '
+                          'Start/Waiting at next_message_index, which then grows by one, else Resync + MissingSyncResponse; SyncEnd only with max_index = next_message_index; terminates')
 
 PROPERTY = 'C18'
 LEVEL = 'proof'
 Q = 'crates/aranya-runtime/src/sync/requester.rs'
 MQ = 'sync::requester::verif_kani::'
 RT = dict(crate='aranya-runtime', features='testing,libc')
-HARNESS_FILES = ['kani/aranya-runtime/requester.rs']
+HARNESS_FILES = ['verus/c18_get_sync_commands.py', 'kani/aranya-runtime/requester.rs']
 CON = ('get_sync_commands on a SyncResponse whose command metas carry arbitrary u32 lengths and an arbitrary payload: never panics; SessionMismatch iff ids differ (state untouched); '
        'accepted only in Start/Waiting at the expected index (then index+1); every returned policy/data slice lies inside the received bytes, consecutive, with the claimed lengths; '
        'otherwise MalformedResponse exactly when the claimed lengths exceed the received bytes')
@@ -17,17 +34,17 @@ def u(n, tiers=('quick', 'thorough'), cap=900):
                 tiers=tiers, cap_s=cap, contract=CON, **RT)
 
 
-UNITS = [u(0), u(1), u(2), u(3, tiers=('thorough',), cap=2400),
+UNITS = [GSC_UNIT, u(0), u(1), u(2), u(3, tiers=('thorough',), cap=2400),
          Kani(MQ + 'c17_sync_end_contract', fns=[Fn(Q, 'get_sync_commands', r'impl SyncRequester')],
               contract='SyncEnd accepted only in Start/Waiting with max_index = next expected index; index never changes', **RT)]
 TRUSTED = ['postcard decoding of the message enum (SyncIncoming::decode / take_from_bytes) is NOT covered: the contract starts from a decoded SyncResponseMessage',
            'next_message_index < u64::MAX (2^64 responses cannot have been received)']
-ASSUMPTIONS = ['per-command slicing step is the same for every command (loop-invariant start <= remaining.len()); the harness bound on the number of commands is 3',
+ASSUMPTIONS = ['the Kani harnesses run the compiled code with <= 3 command metas; the Verus unit covers any number on the extracted text (heapless Vec modelled by a std Vec with capacity, slice::get(range) by a verified helper)',
                'SyncResponder::dispatch and postcard decode of arbitrary bytes are not under contract yet']
 EXPLANATION = 'Contract harness on the real payload-slicing code over fully symbolic attacker-controlled lengths.'
 MANIFEST = {
-    'text': 'Proof of the slicing contract (bounded in the number of commands only): for all u32 length fields and all payloads, get_sync_commands never panics, never reads outside the '
+    'text': 'Proof of the slicing contract (Verus: any number of commands; Kani on the compiled code: up to 3): for all u32 length fields and all payloads, get_sync_commands never panics, never reads outside the '
             'received bytes, rejects foreign sessions without touching state and accepts a response only at the expected index. Decoding of raw bytes (postcard) is not covered.',
-    'note': 'BOUNDED: <= 3 command metas, payload <= 12 bytes; lengths/indices/session ids over their full domains. postcard decode not under contract.',
-    'technique': 'Kani contract harness (overflow/bounds obligations on the real body) + CBMC',
+    'note': 'Verus unit unbounded; Kani units bounded (<= 3 command metas, payload <= 12 bytes; lengths/indices/session ids over their full domains). postcard decode not under contract.',
+    'technique': 'Verus on the extracted get_sync_commands + Kani contract harness (overflow/bounds obligations on the real body, CBMC)',
 }
